@@ -125,7 +125,7 @@ func NewSendType(left, right SessionType, mode Modality) *SendType {
 func (q *SendType) String() string {
 	var buffer bytes.Buffer
 	// buffer.WriteString("(")
-	buffer.WriteString(q.Left.String())
+	buffer.WriteString(leftOperandString(q.Left))
 	buffer.WriteString(" * ")
 	buffer.WriteString(q.Right.String())
 	// buffer.WriteString(")")
@@ -144,7 +144,7 @@ func (q *SendType) StringWithModality() string {
 
 func (q *SendType) StringWithOuterModality() string {
 	var buffer bytes.Buffer
-	buffer.WriteString(q.Left.String())
+	buffer.WriteString(leftOperandString(q.Left))
 	buffer.WriteString(" * ")
 	buffer.WriteString(q.Right.String())
 	buffer.WriteString(" [")
@@ -155,6 +155,17 @@ func (q *SendType) StringWithOuterModality() string {
 
 func (q *SendType) Modality() Modality {
 	return q.Mode
+}
+
+// The binary type operators and the shifts are right associative and share one precedence
+// level, so a binary or shift type used as a *left* operand must be bracketed for the printed
+// text to read back as the same type, e.g. (1 * 1) * 1 or (lin /\ aff 1) -* 1.
+func leftOperandString(left SessionType) string {
+	switch left.(type) {
+	case *SendType, *ReceiveType, *UpType, *DownType:
+		return "(" + left.String() + ")"
+	}
+	return left.String()
 }
 
 // Receive: A -* B
@@ -175,7 +186,7 @@ func NewReceiveType(left, right SessionType, mode Modality) *ReceiveType {
 func (q *ReceiveType) String() string {
 	var buffer bytes.Buffer
 	// buffer.WriteString("(")
-	buffer.WriteString(q.Left.String())
+	buffer.WriteString(leftOperandString(q.Left))
 	buffer.WriteString(" -* ")
 	buffer.WriteString(q.Right.String())
 	// buffer.WriteString(")")
@@ -196,7 +207,7 @@ func (q *ReceiveType) StringWithModality() string {
 
 func (q *ReceiveType) StringWithOuterModality() string {
 	var buffer bytes.Buffer
-	buffer.WriteString(q.Left.String())
+	buffer.WriteString(leftOperandString(q.Left))
 	buffer.WriteString(" -* ")
 	buffer.WriteString(q.Right.String())
 	buffer.WriteString(" [")
